@@ -603,8 +603,49 @@ func dedup(xs []string) []string {
 
 // ---- steps
 
+// recover: once the faults have stopped, the very next fault-free stream write and read must be
+// right again (nothing of a failed call may linger in the library)
+func (e *streamExec) recover() {
+	o := e.o
+	var err error
+	sw := newSimWriter(WriteFault{})
+	if e.isContainer() {
+		if guard(o, "container.ToWriter:"+e.p.API, func() { _, err = e.writeContainer(sw) }) {
+			return
+		}
+		o.Eval("C18")
+		o.Sig("C18", "container", e.p.API, "write", "after-faults")
+		if err != nil {
+			o.Violate("C18", "write-faultfree-failed", fmt.Sprintf("stream write after the faults stopped failed: %v", err), map[string]string{"api": e.p.API})
+		} else if sref, _, ok := e.normalise(sw.Bytes()); !ok || !bytes.Equal(sref, e.ref) {
+			o.Violate("C18", "write-bytes-differ", "stream container write after the faults stopped differs from the buffered write", map[string]string{"api": e.p.API})
+		}
+	} else {
+		var wc cid.Cid
+		if guard(o, "encode-writer:"+e.p.API, func() { _, wc, err = e.encodeToken(sw) }) {
+			return
+		}
+		o.Eval("C18")
+		o.Sig("C18", "token", e.p.API, e.p.Typed, "write", "after-faults")
+		if err != nil {
+			o.Violate("C18", "write-faultfree-failed", fmt.Sprintf("stream write after the faults stopped failed: %v", err), map[string]string{"api": e.p.API})
+		} else if !bytes.Equal(sw.Bytes(), e.ref) {
+			o.Violate("C18", "write-bytes-differ", "stream write after the faults stopped produced other bytes than the buffered call", map[string]string{"api": e.p.API})
+		} else if e.p.API == "sealed" {
+			o.Eval("C08")
+			if !bytes.Equal(wc.Bytes(), harnessCID(sw.Bytes())) {
+				o.Violate("C08", "stream-seal-cid", "ToSealedWriter CID after the faults stopped is not the hash of the sink", nil)
+			}
+		}
+	}
+	e.readOnce(nil, false, ReadFault{})
+	e.readOnce([]int{7}, true, ReadFault{})
+}
+
 func (e *streamExec) step(s *SStep) {
 	switch s.Op {
+	case "recover":
+		e.recover()
 	case "chunk":
 		e.readOnce(s.Chunks, s.EOFData, ReadFault{})
 	case "rfault":
@@ -953,6 +994,7 @@ func genStream(r *Rand, g GenCfg) Plan {
 			p.Steps = append(p.Steps, SStep{Op: "every_write", Hi: -1})
 		}
 	}
+	p.Steps = append(p.Steps, SStep{Op: "recover"})
 	// chunkings
 	p.Steps = append(p.Steps,
 		SStep{Op: "chunk"},
@@ -981,6 +1023,7 @@ func genStream(r *Rand, g GenCfg) Plan {
 	for i := r.Range(0, 3); i > 0; i-- {
 		p.Steps = append(p.Steps, SStep{Op: "rfault", Chunks: []int{Pick(r, []int{1, 3, 16})}, RF: ReadFault{Kind: Pick(r, []string{"err", "err_n", "eof"}), At: r.Intn(600)}})
 	}
+	p.Steps = append(p.Steps, SStep{Op: "recover"})
 	return p
 }
 
